@@ -94,7 +94,7 @@ func reportViolation(bin, prop string, f found, tier string, noMin bool, workers
 	sp.Replay = rec
 	detail := f.v.Detail
 	for _, v := range violationsFor(prop, final, bin, 3_000_003) {
-		if v.Rule == f.v.Rule {
+		if v.Rule == f.v.Rule && matchFinding(activeFindings, v) == nil {
 			detail = v.Detail
 			break
 		}
